@@ -177,17 +177,22 @@ class History:
         solved = [n for n in live if n.metadata is not None and not n.metadata.meta]
         roots = [n for n in live if n.metadata is not None and n.metadata.meta]
         r = rng.random()
+        def fresh_root() -> str:
+            # an input set is added ONCE under its name: adding other requirements under the name of a set that is
+            # already in the graph is not something the solver or the loader does
+            first = rng.choice(["root.txt", "r2.txt"])
+            for nm in [first] + ["r%d.txt" % i for i in range(3, 40)]:
+                if nm.replace(".", "_") not in d.nodes:
+                    return nm
+            return "r%d.txt" % rng.randrange(40, 10 ** 6)
         if not live or r < 0.1:
-            name = rng.choice(["root.txt", "r2.txt"])
-            if name.replace(".", "_") in d.nodes:
-                name = "r3.txt"
-            return self.op_add(self.mk_dist("a", "0", meta=True, name=name, nreq=rng.choice([1, 2])), None, None, None)
+            return self.op_add(self.mk_dist("a", "0", meta=True, name=fresh_root(), nreq=rng.choice([1, 2])), None, None, None)
         if unsolved and r < 0.75:
             n = rng.choice(unsolved)
             try:
                 bc = n.build_constraints()
             except Exception:  # noqa: BLE001
-                return self.op_add(self.mk_dist("a", "0", meta=True, name="r4.txt", nreq=1), None, None, None)
+                return self.op_add(self.mk_dist("a", "0", meta=True, name=fresh_root(), nreq=1), None, None, None)
             vers = [v for v in VERSIONS if bc.specifier.contains(v, prereleases=True)]
             if not vers:
                 return self.apply(f"invalidate({n.key})", ["I", hx(n.key)], lambda: d.remove_dists(n, remove_upstream=False))
@@ -203,7 +208,7 @@ class History:
         if roots:
             n = rng.choice(roots)
             return self.apply(f"remove({n.key})", ["R", hx(n.key)], lambda: d.remove_dists(n))
-        return self.op_add(self.mk_dist("a", "0", meta=True, name="r5.txt", nreq=1), None, None, None)
+        return self.op_add(self.mk_dist("a", "0", meta=True, name=fresh_root(), nreq=1), None, None, None)
 
     def step(self) -> bool:
         rng = self.rng
@@ -441,9 +446,11 @@ def model_coherent(line: str) -> Optional[bool]:
 
 
 def search(ctx: Ctx) -> Optional[Dict[str, Any]]:
-    """Entitled histories replayed on the implementation only: report one whose every operation succeeds
-    and after which the real object is incoherent although the model (the unchanged tree's behaviour,
-    listed defects included) stays coherent on it - or which raises where the model does not."""
+    """Entitled histories replayed on the implementation: report one on which the real object raises or ends incoherent
+    (independent Python oracle, all clauses of the statement) while its observable trace DIFFERS from the model's on the
+    same history.  The model is the unchanged tree's behaviour, listed defects included: a history on which code and
+    model agree step by step shows old behaviour (the oracle's verdict on it is the model's too - e.g. links kept for
+    requirements that no longer apply, C02-leftover family), one on which they differ AND the oracle fails is new."""
     def work():
         mods = _setup()
         alphabet, xorder = graphenc.measure_xorder()
@@ -454,12 +461,17 @@ def search(ctx: Ctx) -> Optional[Dict[str, Any]]:
                 if not h.step_entitled():
                     ok = False
                     break
-            impl_bad = (not ok) or coherence_violation(h.dists) is not None
-            if not impl_bad:
+            why = ("operation raised " + str(h.obs[-1][1])) if not ok else coherence_violation(h.dists)
+            if why is None:
                 continue
-            mc = model_coherent(h.line())
-            if mc is True:   # the model runs every op and ends coherent: new behaviour of the code
-                why = ("operation raised " + h.obs[-1][1]) if not ok else coherence_violation(h.dists)
+            if h.obs and h.obs[-1][0] == "OK":
+                h.obs[-1] = ["OK", graphenc.obs_graph(h.dists, with_bc=True)]
+            impl = graphenc.norm_json(h.obs)
+            try:
+                model = graphenc.norm_json(parse_answer(run_model("C10", [h.line()])[0]))
+            except Exception:  # noqa: BLE001
+                model = None
+            if model is not None and impl != model:
                 return {"input": h.jsonops, "ops": h.desc, "why": why}
         return None
     return in_thread(work)
